@@ -70,6 +70,9 @@ func expectedExif(fields map[string]interface{}) (exp map[string]interface{}, sk
 		if _, plain := exp[k]; plain {
 			exp[k] = v
 		}
+		if len(k) > 6 && k[:6] == "~skip:" {
+			skip[k[6:]] = true
+		}
 	}
 	neg := func(k string) float64 {
 		if b, ok := fields[k].(bool); ok && b {
